@@ -820,7 +820,9 @@ def check_histories(ctx, hists, what, finding_key_of=None, shrink_budget=30):
     import core
     cases = [(k, trace_expr(h.steps)) for k, h in hists.items()]
     if not cases:
-        return 0
+        ctx.fail('%s: no history was generated for this stream (a check that compares nothing proves nothing)' % what, {'stream': what},
+                 no_input=True, kind='harness-error')
+        return 1
     shard = max(1, min(40, (len(cases) + core.NCPU - 1) // core.NCPU))
     results, logs = core.coq_eval_bools(cases, IMPORTS, os.path.join(ctx.workdir, 'eval_%d' % len(os.listdir(ctx.workdir))), shard=shard)
     bad = [k for k, _ in cases if results.get(k) is not True]
